@@ -7,7 +7,7 @@ from typing import Any, Dict, List, Tuple
 from mc.common import Acc
 from mc.dep_world import TEARDOWN_STYLES, DepWorld
 from mc.recv_driver import replay as _replay
-from mc.recv_driver import run_scenarios
+from mc.recv_driver import mark_stateless, run_scenarios
 
 STYLES = ["gen", "agen", "cm", "acm", "plain"]
 
@@ -217,6 +217,8 @@ def scenarios(tier: str) -> List[Dict[str, Any]]:
 
 def shards(tier: str, seed: int) -> List[Any]:
     scs = scenarios(tier)
+    if tier == "thorough":
+        mark_stateless(scs, 6, 12)
     big = [s for s in scs if len(s["msgs"]) > 1]
     small = [s for s in scs if len(s["msgs"]) == 1]
     return [[s] for s in big] + [small[i : i + 80] for i in range(0, len(small), 80)]
